@@ -1,6 +1,16 @@
-"""A message type for specifications whose output is a field of an object variable (o.value = ...)."""
+"""A message type for specifications whose output and/or input is a field of an object variable (o.value = ..., o.x >= 1)."""
 
 
 class Msg(object):
-    def __init__(self):
-        self.value = 0.0
+    def __init__(self, x=0.0):
+        self.value = 0.0       # written by the monitor when the assertion is "o.value = ..."
+        self.x = x             # read by formulas over "o.x"
+
+    def __eq__(self, other):   # the caller's data is "unchanged" when the input field is (value is the monitor's to write)
+        return isinstance(other, Msg) and self.x == other.x
+
+    def __ne__(self, other):
+        return not self.__eq__(other)
+
+    def __repr__(self):
+        return "Msg(%r)" % (self.x,)
